@@ -172,7 +172,7 @@ def r3_provenance(ctx, prog):
         r.viol("R3:find_match", "is `%s`" % t, file=F)
     fn = ctx.ast.fn(F, "convert_vec_str_to_langids_lossy")
     t = flatp(show(fn.body)) if fn else ""
-    if same(t, "{input.into_iter.filter_map|t|LanguageIdentifier::try_from_bytest.as_ref.ok.collect}"):
+    if same(t, "{input.into_iter.filter_map|t|LanguageIdentifier::try_from_locale_bytest.as_ref.trim_ascii.ok.collect}"):
         r.inst("convert_vec_str_to_langids_lossy", "order-preserving filter_map(parse.ok())")
     else:
         r.viol("R3:convert_vec_str_to_langids_lossy", "is `%s`" % t, file=F)
@@ -362,13 +362,47 @@ def r0_negotiation(ctx):
             out.append(p_.title() if len(p_) == 4 and p_.isalpha() else (p_.upper() if len(p_) == 2 else p_.lower()))
         return "-".join(out)
 
-    def try_from_bytes(args):
-        v = args[0]
+    def _text(v):
         if v[0] == "list" and all(x[0] == "int" for x in v[1]):
             v = ("str", bytes(x[1] for x in v[1]).decode("utf-8", "replace"))
-        if v[0] == "str" and canon(v[1]) in lids and re.match(r"^[A-Za-z]{2,3}([-_][A-Za-z0-9]+)*$", v[1]):
-            return C("Ok", lids[canon(v[1])])
+        return v[1] if v[0] == "str" else None
+
+    def try_from_bytes(args):
+        # icu_locid's LanguageIdentifier::try_from_bytes (modelled): the whole text is a language identifier - no white space, no extension
+        t_ = _text(args[0])
+        if t_ is not None and canon(t_) in lids and re.match(r"^[A-Za-z]{2,3}([-_][A-Za-z0-9]{2,8})*$", t_):
+            return C("Ok", lids[canon(t_)])
         return C("Err", absint.A("ParserError"))
+
+    def _head(t_):
+        parts = re.split(r"[-_]", t_)
+        cut = next((i_ for i_, p_ in enumerate(parts) if len(p_) == 1), None)
+        if cut is None:
+            return t_, True
+        ext = parts[cut:]
+        ok_ext = len(ext) >= 2 and all((len(p_) == 1 and k_ + 1 < len(ext) and len(ext[k_ + 1]) > 1) or 2 <= len(p_) <= 8 or (ext[0].lower() == "x" and 1 <= len(p_) <= 8) for k_, p_ in enumerate(ext))
+        return "-".join(parts[:cut]), ok_ext and cut > 0
+
+    def try_from_locale_bytes(args):
+        # ... try_from_locale_bytes (modelled): a full locale tag, of which the extensions / private-use part is dropped; no white space
+        t_ = _text(args[0])
+        if t_ is None:
+            return C("Err", absint.A("ParserError"))
+        h_, okx = _head(t_)
+        if okx and canon(h_) in lids and re.match(r"^[A-Za-z]{2,3}([-_][A-Za-z0-9]{2,8})*$", h_) and re.match(r"^[A-Za-z0-9_-]+$", t_):
+            return C("Ok", lids[canon(h_)])
+        return C("Err", absint.A("ParserError"))
+
+    def lang_of(text):
+        # the statement's reading of one entry of the user's list: a language tag, possibly padded with white space (the `Accept-Language`
+        # header allows it around list elements), possibly carrying extensions; what is negotiated is its language identifier
+        t_ = text.strip(" \t\n\x0c\r")
+        if not re.match(r"^[A-Za-z0-9_-]+$", t_ or "?!"):
+            return None
+        h_, okx = _head(t_)
+        if okx and canon(h_) in lids and re.match(r"^[A-Za-z]{2,3}([-_][A-Za-z0-9]{2,8})*$", h_):
+            return canon(h_)
+        return None
     S = lambda x: ("str", x)  # noqa: E731
     funcs2 = dict(funcs)
     n2 = 0
@@ -376,19 +410,24 @@ def r0_negotiation(ctx):
     for avail in (("en", "fr", "fr-FR"), ("fr-CA", "en-US", "ca-ES"), tuple(UNIVERSE), ("en", "es", "fr", "de", "de-1996")):
         for acc in (["%%bad", "fr-FR", "en"], ["de", "", "fr-CA", "en"], ["not a tag"], [], ["en-GB", "??", "ca-ES-valencia"], ["es-419", "fr"], ["de-1996", "fr"], ["fr_FR", "en"],
                     ["EN-us", "fr"], ["q=0.8", "*", "en-001", "fr"], ["x", "fr-ca"],
+                    # as a server receives them from `Accept-Language: es, fr;q=0.9, de` (split at `,`, weights cut off): padded with white space
+                    ["es", " fr", " de"], [" fr-CA ", "en"], ["\tde\t", " en"],
+                    # tags with unicode / private-use extensions: their language identifier is what counts
+                    ["fr-FR-u-ca-gregory", "de"], ["de-1996-u-co-phonebk"], ["fr-x-foo", "de"], ["en-US-t-m0-names", "fr"],
                     # a long header: every entry counts, the only supported language may come last
                     ["ja", "ko", "zh", "es-419", "pt", "it", "nl", "sv", "pl", "ru", "fr"], ["ja", "ko", "zh", "pt", "it", "nl", "sv", "pl", "ru", "%%", "", "x", "ja", "ko", "zh", "pt", "it", "fr-CA", "en"]):
             ev = AEval(funcs=funcs2, builtins={"get_all": lambda rv, a, avail=avail: L(*[lids[t] for t in avail]), "from_base_locale": lambda rv, a: a[0] if a else rv})
-            ev.path_builtins = {"LanguageIdentifier::try_from_bytes": try_from_bytes, "Self::get_all": lambda a, avail=avail: L(*[lids[t] for t in avail]),
+            ev.path_builtins = {"LanguageIdentifier::try_from_bytes": try_from_bytes, "LanguageIdentifier::try_from_locale_bytes": try_from_locale_bytes,
+                                "Self::get_all": lambda a, avail=avail: L(*[lids[t] for t in avail]),
                                 "Self::from_base_locale": lambda a: a[0], "L::get_all": lambda a, avail=avail: L(*[lids[t] for t in avail])}
             got = ev.run_fn(fl, [L(*[S(x) for x in acc])])
             if isinstance(got, str):
                 return r, False, got
-            good = [canon(x) for x in acc if try_from_bytes([S(x)])[1] == "Ok"]
+            good = [lang_of(x) for x in acc if lang_of(x) is not None]
             want = AEval(funcs=funcs).run_fn(funcs["find_match"], [L(*[lids[t] for t in good]), L(*[lids[t] for t in avail])])
             n2 += 1
             if got != want:
-                bad2.setdefault("find_locale", "accepted %s, supported %s: find_locale gives %s, negotiation over the parseable entries %s gives %s" % (
+                bad2.setdefault("find_locale", "accepted %s, supported %s: find_locale gives %s, negotiation over the language identifiers of the entries (white space and extensions aside) %s gives %s" % (
                     acc, list(avail), back.get(got, absint.fmt(got)), good, back.get(want, absint.fmt(want) if not isinstance(want, str) else want)))
         for q in ("fr-FR", "de", "ca-ES-valencia"):
             ev = AEval(funcs=funcs2, builtins={"from_base_locale": lambda rv, a: a[0] if a else rv})
